@@ -1342,6 +1342,102 @@ pub fn space_s3_reduced(f: &mut dyn FnMut(u64, &[u8])) -> u64 {
     idx
 }
 
+/// H: huge constant trip counts. The counter starts at -1 (2^w - 1 iterations); the body is every sequence
+/// of <= 3 additive statements over b and c. Never executed (2^64 iterations): only built. A compile
+/// step that is linear in the trip count instead of in its bit length shows up at 32/64 bit only.
+pub fn space_h() -> Vec<Vec<u8>> {
+    let mut stmts: Vec<Stmt> = vec![Stmt::Inc(1), Stmt::Inc(2), Stmt::Dec(1)];
+    for (x, y) in [(1u8, 2u8), (2, 1)] {
+        stmts.extend_from_slice(&[Stmt::AddD(x, y), Stmt::AddP(x, y), Stmt::Add2(x, y), Stmt::Add3(x, y), Stmt::SubD(x, y)]);
+    }
+    let pieces: Vec<Vec<u8>> = stmts
+        .iter()
+        .map(|s| {
+            let mut v = Vec::new();
+            s.emit(&mut v);
+            v
+        })
+        .collect();
+    let mut bodies: Vec<Vec<u8>> = vec![Vec::new()];
+    let mut layer: Vec<Vec<u8>> = vec![Vec::new()];
+    for _ in 0..3 {
+        let mut next = Vec::new();
+        for b in &layer {
+            for p in &pieces {
+                let mut n = b.clone();
+                n.extend_from_slice(p);
+                next.push(n);
+            }
+        }
+        bodies.extend(next.iter().cloned());
+        layer = next;
+    }
+    let mut out = Vec::new();
+    for body in &bodies {
+        for prefix in ["-", "->+>++<<"] {
+            for shape in [Shape::DecFirst, Shape::DecLast] {
+                let mut p = prefix.as_bytes().to_vec();
+                emit_loop(&mut p, shape, 0, body);
+                p.extend_from_slice(b">.>.");
+                out.push(p);
+            }
+        }
+    }
+    out
+}
+
+/// NL: nested loops after a computation. Three inputs; one statement that computes with the variables
+/// (so their values sit in temporaries / the generator's value table before any loop); then a counted
+/// loop on a around an inner loop (every shape, on b or c) around one statement; then the outputs. The
+/// values created before the outer loop are first used inside the inner loop: live ranges and value
+/// tables must be carried across two loop levels.
+pub fn space_nl(f: &mut dyn FnMut(u64, &[u8])) -> u64 {
+    let all = all_stmts();
+    let emit = |s: &Stmt| {
+        let mut v = Vec::new();
+        s.emit(&mut v);
+        v
+    };
+    let pre: Vec<Vec<u8>> = all
+        .iter()
+        .filter(|s| matches!(s, Stmt::AddP(..) | Stmt::Copy(..) | Stmt::Mul(..) | Stmt::AddD(..)))
+        .map(emit)
+        .collect();
+    let inner: Vec<Vec<u8>> = all.iter().map(emit).collect();
+    let mut idx = 0u64;
+    let mut prog = Vec::new();
+    let mut body = Vec::new();
+    let mut inner_loop = Vec::new();
+    for p in &pre {
+        for x in 1..3u8 {
+            for shape in SHAPES {
+                for st in &inner {
+                    inner_loop.clear();
+                    emit_loop(&mut inner_loop, shape, x, st);
+                    for out_inside in [false, true] {
+                        body.clear();
+                        body.extend_from_slice(&inner_loop);
+                        if out_inside {
+                            // an output of the other variable after the inner loop
+                            let mut o = Vec::new();
+                            Stmt::Out(3 - x).emit(&mut o);
+                            body.extend_from_slice(&o);
+                        }
+                        prog.clear();
+                        prog.extend_from_slice(PREFIXES[0].as_bytes());
+                        prog.extend_from_slice(p);
+                        emit_loop(&mut prog, Shape::DecFirst, 0, &body);
+                        prog.extend_from_slice(EPILOGUE.as_bytes());
+                        f(idx, &prog);
+                        idx += 1;
+                    }
+                }
+            }
+        }
+    }
+    idx
+}
+
 /// L3 (reduced): straight-line "compute; disturb; overwrite" triples at top level with the input-only
 /// prefix: a statement that computes into a variable, then an input / output / clear / increment, then a
 /// statement that overwrites a variable - the shapes in which a computed store is dead, partially dead
